@@ -111,13 +111,15 @@ def gen_single(rng, w, tour, jid=90, multi_alt=True):
                 tws.append([a, 'inf'])
         loc = None if rng.chance(1, 10) else rng.below(n)
         places.append({'loc': loc, 'svc': rng.choice([0, 0, 4, 12]), 'tws': tws})
-    k = rng.below(10)
+    k = rng.below(12)
     if k < 4:
         dem = [0, 0, rng.range(1, 8), 0]
     elif k < 8:
         dem = [rng.range(1, 8), 0, 0, 0]
-    else:
+    elif k < 10:
         dem = [0, 0, 0, 0]
+    else:
+        dem = [rng.range(1, 8), 0, rng.range(1, 8), 0]    # exchange stop: static pickup and static delivery (as merged jobs have)
     return {'id': jid, 'places': places, 'dem': dem}
 
 
@@ -159,15 +161,20 @@ def gen_boundary_single(rng, w, tour, jid=90):
     for a in t:
         load += a['dem'][0] + a['dem'][1] - a['dem'][2] - a['dem'][3]
         loads.append(load)
-    k = rng.below(3)
+    k = rng.below(4)
     if k == 0:
         q = max(1, cap - max([0] + loads[:idx + 1]) + rng.range(-1, 1))
         dem = [0, 0, q, 0]
     elif k == 1:
         q = max(1, cap - max(loads[idx:]) + rng.range(-1, 1))
         dem = [q, 0, 0, 0]
-    else:
+    elif k == 2:
         dem = [0, 0, 0, 0]
+    else:
+        # exchange stop with both amounts at their own boundary
+        qd = max(1, cap - max([0] + loads[:idx + 1]) + rng.range(-1, 0))
+        qp = max(1, cap - max(loads[idx:]) + rng.range(-1, 1))
+        dem = [qp, 0, qd, 0]
     return {'id': jid, 'places': [{'loc': loc, 'svc': svc, 'tws': [[tws, twe]]}], 'dem': dem}
 
 
